@@ -230,3 +230,22 @@ func TestRSASecretKey(t *testing.T) {
 		t.Fatal("checksum not checked")
 	}
 }
+
+func TestSigPartsAndCanonicalText(t *testing.T) {
+	sig := []byte{4, 1, 1, 8, 0, 6, 5, 2, 1, 2, 3, 4, 0, 10, 9, 16}
+	sig = append(sig, mustHex("1122334455667788")...)
+	sig = append(sig, 0xAB, 0xCD, 0, 17, 1, 2, 3)
+	p, err := ParseSigV4(sig)
+	if err != nil || p.SigType != 1 || p.Hash != 8 || len(p.HashedPrefix) != 12 || !bytes.Equal(p.Trailer, []byte{4, 0xff, 0, 0, 0, 12}) || p.HashTag != [2]byte{0xAB, 0xCD} || len(p.MPIs) != 1 || p.MPIs[0].Int64() != 0x010203 {
+		t.Fatalf("%+v %v", p, err)
+	}
+	for _, v := range []struct {
+		in, out string
+		ok      bool
+	}{{"a\nb", "a\r\nb", true}, {"a\r\nb\n", "a\r\nb\r\n", true}, {"\n", "\r\n", true}, {"", "", true}, {"a\rb", "a\rb", false}, {"a\r\r\n", "a\r\r\n", false}, {"a\r", "a\r", false}} {
+		c, ok := CanonicalText([]byte(v.in))
+		if string(c) != v.out || ok != v.ok {
+			t.Fatalf("%q: %q %v", v.in, c, ok)
+		}
+	}
+}
